@@ -22,7 +22,7 @@ ASSUMPTIONS = [
   "main profile builds ruby annotations untimed and non-blank (ttconv finding I-3 is exercised by the ruby_timed part)",
 ]
 
-MAIN = gen_model.profile(br_styles=False, ruby_timed=False, style_density=(0, 2), max_nodes=40,
+MAIN = gen_model.profile(br_styles=False, ruby_timed=False, style_density=(0, 2), max_nodes=40, text_unicode=True,
                          props=["Display", "Visibility", "Opacity", "Color", "BackgroundColor", "FontSize", "TextDecoration",
                                 "ShowBackground", "WritingMode", "Extent", "Origin"])
 RUBY_TIMED = gen_model.profile(ruby_timed=True, style_density=(0, 1), max_nodes=30, max_regions=2,
